@@ -1160,10 +1160,11 @@ func (app *App) ErrorHandler(ctx Ctx, err error) error {
 		} else if !hasMountPrefix(path, prefix, app.config.CaseSensitive) {
 			continue
 		}
-		// A nested mount accounts for more of the path than the mounts around it, so the highest
-		// rank is the innermost mounted app. Overlapping siblings of equal rank are told apart by
-		// their prefixes, so the choice never depends on the order in which the map is iterated.
-		if rank > mountedRank || (rank == mountedRank && prefix < mountedPrefix) {
+		// A nested mount accounts for at least as much of the path as the mounts around it and its
+		// prefix extends theirs, so the highest rank and, among equals, the prefix that sorts last is
+		// the innermost mounted app. Overlapping siblings are told apart the same way, so the choice
+		// never depends on the order in which the map is iterated.
+		if rank > mountedRank || (rank == mountedRank && prefix > mountedPrefix) {
 			mountedErrHandler = subApp.config.ErrorHandler
 			mountedPrefix, mountedRank = prefix, rank
 		}
